@@ -128,3 +128,36 @@ func VerifHarness_C02_RepeatUnfilled() {
 		verifReach("nonempty")
 	}
 }
+
+// a boost table whose keys differ only in letter case (and carry different factors)
+func VerifHarness_C02_BoostKeyCase() {
+	db := c01DB(3)
+	o := SearchOptions{Limit: 3, AllPlatforms: true, UseNLP: verifBool("nlp"),
+		ContextBoosts: map[string]float64{"aa": 2.0, "AA": 1.3, "Aa": 3.5}}
+	a := db.SearchUniversal("aa bb", o)
+	verifMapOrder(3)
+	b := db.SearchUniversal("aa bb", o)
+	verifMapOrder(1)
+	c02SameResults(a, b, "SearchUniversal, boost keys differing in case")
+	verifReach("compared")
+	if len(a) > 0 {
+		verifReach("nonempty")
+	}
+}
+
+// the answer to a query does not depend on which queries were answered before it
+func VerifHarness_C02_Interleaved() {
+	db := c01DB(5)
+	qs := []string{"aa", "cc dd", "bb ee", "ff"}
+	q := qs[verifIntRange("query", 0, 3)]
+	other := qs[verifIntRange("other", 0, 3)]
+	o := SearchOptions{Limit: 3, AllPlatforms: true, UseNLP: true}
+	a := db.SearchUniversal(q, o)
+	_ = db.SearchUniversal(other, o)
+	b := db.SearchUniversal(q, o)
+	c02SameResults(a, b, "SearchUniversal after another query")
+	verifReach("compared")
+	if len(a) > 0 {
+		verifReach("nonempty")
+	}
+}
